@@ -7,5 +7,10 @@ mod serve;
 static GLOBAL: serve::alloc::Counting = serve::alloc::Counting;
 
 fn main() {
-    serve::main();
+    // the serve loop runs on a thread with an ordinary stack (2 MiB, what `std::thread::spawn` gives user code) rather than
+    // on the 8 MiB main thread: an operation that needs stack proportional to its input is then seen on inputs of a few
+    // ten thousand tokens (`r=abort`), while everything the harness itself does stays far below that
+    let kb: usize = std::env::var("JPSERVE_STACK_KB").ok().and_then(|v| v.parse().ok()).unwrap_or(2048);
+    let t = std::thread::Builder::new().stack_size(kb * 1024).spawn(serve::main).expect("spawn serve thread");
+    let _ = t.join();
 }
